@@ -217,7 +217,9 @@ pub fn run() {
                 // the served user namespaces of the node that never stops, as a token of its own (predicted by the
                 // namespace component model)
                 let ns = d[0].split(';').find_map(|p| p.strip_prefix("nsq=")).unwrap_or("-").to_string();
-                format!("dump nsL={} L={} F={} R={}", ns, d[0], d[1], d[2])
+                let sq = d[0].split(';').find_map(|p| p.strip_prefix("sq=")).unwrap_or("-").to_string();
+                let tb = d[0].split(';').find_map(|p| p.strip_prefix("tb=")).unwrap_or("-").to_string();
+                format!("dump nsL={} sqL={} tbL={} L={} F={} R={}", ns, sq, tb, d[0], d[1], d[2])
             }
             _ => "bad-op".to_string(),
         }
